@@ -262,6 +262,11 @@ Inductive case :=
 | KUtilCov (r : list Q) (Ci : list (list Q)) (chi : Q)
 (* the inversion terms with a Preloads object carrying (any) regularization matrix / log-determinant *)
 | KInvP (tbl : list (Q * Q)) (p : pre Q) (iv : inv Q) (out : invout)
+(* the same two kinds of case for inputs that are NOT dyadic (production inversions whose curvature matrix and
+   reconstruction are computed by the code; float32-typed arrays with more than 24 significant bits; arbitrary doubles):
+   double rounding is then visible, every comparison is made within 1e-9 (relative, absolute below 1) *)
+| KFitR (tbl : list (Q * Q)) (tp : Q) (f : fit Q) (out : fitout) (xrff xsnr : list (xval Q))
+| KInvR (tbl : list (Q * Q)) (iv : inv Q) (out : invout)
 (* FitInterferometer *)
 | KVis (tbl : list (Q * Q)) (tp : Q) (v : vfit Q) (out : visout)
 (* the complex fit_util functions on ndarrays *)
@@ -298,6 +303,11 @@ Definition agreex (k : case) : bool :=
       agree_fit tbl tp f o &&
       list_eqb (xq rclose) (@fit_residual_flux_fraction_map_x (QL tbl) f) xrff &&
       list_eqb (xq exact) (@fit_signal_to_noise_map_x (QL tbl) f) xsnr
+  | KFitR tbl tp f o xrff xsnr =>
+      agree_fit_e close tbl tp f o &&
+      list_eqb (xq close) (@fit_residual_flux_fraction_map_x (QL tbl) f) xrff &&
+      list_eqb (xq close) (@fit_signal_to_noise_map_x (QL tbl) f) xsnr
+  | KInvR tbl iv o => agree_inv_e close tbl iv o
   | KUtilX r d mk xrff xrffw =>
       list_eqb (xq rclose) (@residual_flux_fraction_map_from_x QOps r d) xrff &&
       list_eqb (xq rclose) (@residual_flux_fraction_map_with_mask_from_x QOps r d mk) xrffw
@@ -393,6 +403,13 @@ Definition spec_okx (k : case) : bool :=
       xmap_ok len (fun i => if @excluded O f i then XFin 0 else @s_quot_x O (@s_residual O f i) (@s_data O f i)) rclose xrff &&
       (* signal to noise on EVERY stored pixel, whatever the mask and the sign of the noise value *)
       xmap_ok len (fun i => @s_snr_x O (@s_data O f i) (@at_ O (noise f) i)) exact xsnr
+  | KFitR tbl tp f o xrff xsnr =>
+      let O := QL tbl in
+      let len := length (data f) in
+      spec_fit_e close tbl tp f o &&
+      xmap_ok len (fun i => if @excluded O f i then XFin 0 else @s_quot_x O (@s_residual O f i) (@s_data O f i)) close xrff &&
+      xmap_ok len (fun i => @s_snr_x O (@s_data O f i) (@at_ O (noise f) i)) close xsnr
+  | KInvR tbl iv o => spec_inv_e close tbl iv o
   | KUtilX r d mk xrff xrffw =>
       let len := length r in
       (Nat.eqb (length d) len && Nat.eqb (length mk) len) &&
